@@ -3623,7 +3623,8 @@ class DecVar(Vars):
 
             if len(outputs) > 1:
                 ind_label = self.dro_model.series_scen.index
-                return pd.Series([outputs[edict[key]] for key in edict],
+                return pd.Series([outputs[edict[key]]
+                                  for key in range(len(ind_label))],
                                  index=ind_label)
             else:
                 return outputs[0]
@@ -3650,7 +3651,8 @@ class DecVar(Vars):
 
             if len(outputs) > 1:
                 ind_label = self.dro_model.series_scen.index
-                return pd.Series([outputs[edict[key]] for key in edict],
+                return pd.Series([outputs[edict[key]]
+                                  for key in range(len(ind_label))],
                                  index=ind_label)
             else:
                 return outputs[0]
